@@ -38,7 +38,7 @@ GNext ==
   /\ IF \E p \in Pledge : Cancelling(p)
      THEN LET p == MinOf({x \in Pledge : Cancelling(x)})
               j == MinOf(Pending(p))
-          IN Timeout(p, j) /\ H(R("cancel", p, j, resp[p].key, {}, TRUE, resp[p].round))
+          IN Cancel(p, j) /\ H(R("cancel", p, j, resp[p].key, {}, TRUE, resp[p].round))
      ELSE IF \E p \in Pledge : Concluded(p)
      THEN LET p == MinOf({x \in Pledge : Concluded(x)})
           IN \/ Retry(p) /\ H(R("retry", p, 0, resp[p].key, {}, TRUE, resp[p].round))
